@@ -558,8 +558,27 @@ func c12Ufs(ctx *core.Ctx, sdotu bool, cdotu ...bool) core.Result {
 	if dotu {
 		ver = "9P2000.u"
 	}
-	for _, msize := range []uint32{24, 40, 64, 80, 100, 128, 200, 256, 1024, 8192} {
+	for mi, msize := range []uint32{24, 40, 64, 80, 100, 128, 200, 256, 1024, 8192, 64, 256, 1024} {
 		c := h.s.Dial()
+		if mi >= 10 {
+			// the connection first negotiates the server's full msize and moves some large replies, then settles on
+			// the small one: what is left of the first session must not show in the second
+			if r0, err := c.Version(8192, ver, W); err == nil && r0.Msg != nil && r0.Msg.Type == wire.Rversion {
+				c.Rpc(&wire.Msg{Type: wire.Tattach, Tag: 1, Fid: 0, Afid: wire.NOFID, Uname: "root", Nuname: 0}, W)
+				c.Rpc(&wire.Msg{Type: wire.Twalk, Tag: 2, Fid: 0, Newfid: 1, Wname: []string{"file09" + strings.Repeat("x", 27)}}, W)
+				c.Rpc(&wire.Msg{Type: wire.Topen, Tag: 3, Fid: 1, Mode: 0}, W)
+				var burst []*wire.Msg
+				for i := 0; i < 6; i++ {
+					burst = append(burst, &wire.Msg{Type: wire.Tread, Tag: uint16(10 + i), Fid: 1, Offset: 0, Count: 8168})
+				}
+				_ = c.Send(burst...)
+				for _, m := range burst {
+					c.WaitTag(m.Tag, W)
+				}
+				c.Rpc(&wire.Msg{Type: wire.Tclunk, Tag: 4, Fid: 1}, W)
+				c.Rpc(&wire.Msg{Type: wire.Tclunk, Tag: 5, Fid: 0}, W)
+			}
+		}
 		r, err := c.Version(msize, ver, W)
 		if err != nil || r.Msg == nil || r.Msg.Type != wire.Rversion || r.Msg.Msize != msize {
 			res.Violate("C12;ufs;negotiation", fmt.Sprintf("Ufs negotiation msize %d failed", msize), nil)
@@ -603,6 +622,13 @@ func c12Ufs(ctx *core.Ctx, sdotu bool, cdotu ...bool) core.Result {
 		for _, cnt := range []uint32{0, 1, msize - 25, msize - 24} {
 			if int32(cnt) >= 0 {
 				send("read", &wire.Msg{Type: wire.Tread, Fid: 1, Offset: 3, Count: cnt})
+			}
+		}
+		// counts no msize allows, up to the ones where count + header wraps around 32 bits: refused, and whatever
+		// the answer is, it obeys msize and the dialect (checked in send)
+		for _, cnt := range []uint32{msize - 23, msize, 1 << 31, 0xFFFFFFE7, 0xFFFFFFE8, 0xFFFFFFF0, 0xFFFFFFFF} {
+			if rp := send("read-overlimit", &wire.Msg{Type: wire.Tread, Fid: 1, Offset: 0, Count: cnt}); rp != nil && rp.Type != wire.Rerror {
+				res.Violate("C12;ufs;overlimit-read-executed", fmt.Sprintf("Ufs msize %d: Tread count %d (more than msize-24) was answered %s", msize, cnt, rp.String()), nil)
 			}
 		}
 		send("walkdir", &wire.Msg{Type: wire.Twalk, Fid: 0, Newfid: 3, Wname: []string{"listing"}})
